@@ -9,6 +9,7 @@
 #include <limits.h>
 #include <algorithm>
 #include <deque>
+#include <map>
 #include <signal.h>
 
 namespace sim {
@@ -286,6 +287,73 @@ NoSched::~NoSched()
 {
 	if (self)
 		self->noSched--;
+}
+
+// ------------------------------------------------------------------ happens-before clocks
+bool g_hbOn = false;
+static std::map<uintptr_t, HbClock> g_hbAtomics;
+static std::map<const void*, HbClock> g_hbObjs;
+void enableDestructionRaceOracle(bool on)
+{
+	g_hbOn = on && heapTracking();
+}
+void hbReset()
+{
+	g_hbOn = false;
+	g_hbAtomics.clear();
+	g_hbObjs.clear();
+}
+void hbAcquire(const HbClock& from)
+{
+	for (int i = 0; i < HB_MAXT; i++)
+		if (from.c[i] > self->vc[i])
+			self->vc[i] = from.c[i];
+}
+void hbRelease(HbClock& into, bool reset)
+{
+	for (int i = 0; i < HB_MAXT; i++)
+		into.c[i] = reset ? self->vc[i] : std::max(into.c[i], self->vc[i]);
+	if (self->id < HB_MAXT)
+		self->vc[self->id]++;
+}
+void hbFork(SThread* child)
+{
+	if (!self || child->id >= HB_MAXT || self->id >= HB_MAXT)
+		return;
+	memcpy(child->vc, self->vc, sizeof child->vc);
+	child->vc[child->id] = 1;
+	self->vc[self->id]++;
+}
+void hbJoin(SThread* fin)
+{
+	if (!self || !g_hbOn)
+		return;
+	for (int i = 0; i < HB_MAXT; i++)
+		if (fin->vc[i] > self->vc[i])
+			self->vc[i] = fin->vc[i];
+}
+void hbAtomic(uintptr_t addr, bool acquire, bool release, bool isStore)
+{
+	if (!g_hbOn || !self || self->id >= HB_MAXT)
+		return;
+	RtScope r;
+	HbClock& c = g_hbAtomics[addr];
+	if (acquire)
+		hbAcquire(c);
+	if (release)
+		hbRelease(c, isStore);
+	else if (isStore)
+		c = HbClock(); // a relaxed store breaks the release sequence
+}
+void hbSyncObj(const void* obj, bool acquire, bool release)
+{
+	if (!g_hbOn || !self || self->id >= HB_MAXT)
+		return;
+	HbClock& c = g_hbObjs[obj];
+	if (acquire)
+		hbAcquire(c);
+	if (release)
+		hbRelease(c, false);
 }
 
 // ------------------------------------------------------------------ thread table
@@ -807,6 +875,7 @@ SThread* createThread(void* (*fn)(void*), void* arg)
 	if (e)
 		fatal("harness", "pthread_create", "real pthread_create failed: %d", e);
 	t->hasReal = true;
+	hbFork(t);
 	g.needDecide = true;
 	return t;
 }
@@ -852,6 +921,7 @@ void joinTask(TaskId id)
 		return;
 	while (t->st != SThread::FINISHED)
 		blockOn(BK_JOIN, t, -1, false);
+	hbJoin(t);
 }
 bool taskFinished(TaskId id)
 {
@@ -895,6 +965,7 @@ void runOne(const Plan& plan, const SchedCfg& cfg, ScenarioFn fn, RunResult& out
 	syncReset();
 	netReset();
 	fsReset();
+	hbReset();
 	heapRunStart();
 
 	g.threads.emplace_back();
@@ -905,6 +976,7 @@ void runOne(const Plan& plan, const SchedCfg& cfg, ScenarioFn fn, RunResult& out
 	t0->real = pthread_self();
 	t0->hasReal = true;
 	t0->started = true;
+	t0->vc[0] = 1;
 	self = t0;
 	inRt = 0;
 	g.active = true;
